@@ -11,6 +11,7 @@ import mirq
 from mirq import show, access_path, AnchorMissing, const_of, walk
 from rulekit import Table
 from rules import common as C
+from rules import vocab as V
 
 TABLE = Table('C18')
 NOT_DECIDED = ('what reqwest/url emit on the wire and that percent-decoding yields the bytes '
@@ -71,7 +72,7 @@ def r1(cx, rec):
                     y = y[2][0] if y[2] else ('other', '')
                 muts = [ce[4].get('name') for bb2, ce in mirq.sharing_calls(U, mirq._ident(q))] if mirq._ident(q) else []
                 desc.append(('enc', enc[1], show(enc[2][0]), tuple(post), tuple(muts)))
-            elif any(x[0] == 'call' and x[1].endswith('Metainfo::tracker_url') for x in walk(q)):
+            elif V.mentions_field(q, V.MI, V.meta_announce(F)):
                 desc.append(('announce',))
             elif q[0] in ('var', 'mvar'):
                 desc.append(('var', q[1]))
@@ -146,6 +147,22 @@ def r2(cx, rec):
             rec.need(access_path(fs.get('metainfo', ('other', ''))) == 'metainfo', 'client-metainfo', g, bi, 'metainfo slot receives %s' % show(fs.get('metainfo', ('other', '')))[:60])
 
 
+def is_announce(F, e):
+    """e is the torrent's announce URL itself (the field, or an accessor that returns it), not a part of it"""
+    for _ in range(8):
+        if e[0] == 'cast':
+            e = e[1]
+        elif e[0] in ('var', 'mvar') and mirq.init_of(e) is not e:
+            e = mirq.init_of(e)
+        elif e[0] == 'call' and e[4].get('inl') is not None and e[1] in F.fns:
+            e = e[4]['inl']
+        elif e[0] == 'call' and e[4].get('name') in ('as_str', 'deref', 'as_ref', 'borrow', 'clone', 'to_string', 'to_owned') and e[2]:
+            e = e[2][0]
+        else:
+            break
+    return e[0] == 'field' and len(e) > 3 and e[3] == V.MI and e[2] == V.meta_announce(F)
+
+
 @TABLE.rule('3', 'K10', 'query awareness: the separator before info_hash= depends on whether the announce URL already has a query', floor=1)
 def r3(cx, rec):
     F = cx.F
@@ -154,8 +171,8 @@ def r3(cx, rec):
     for sb in U.switches():
         e, ts, o = U.cond(sb)
         x = mirq.init_of(e)
-        whole = x[0] == 'call' and x[2] and (lambda r_: r_[0] == 'call' and r_[1].endswith('Metainfo::tracker_url'))(mirq.strip(x[2][0]) if x[2][0][0] != 'call' or not x[2][0][1].endswith('tracker_url') else x[2][0])
-        if x[0] == 'call' and x[4].get('name') in ('contains', 'find', 'rfind') and not whole and any(y[0] == 'call' and y[1].endswith('tracker_url') for y in walk(x)):
+        whole = x[0] == 'call' and bool(x[2]) and is_announce(F, x[2][0])
+        if x[0] == 'call' and x[4].get('name') in ('contains', 'find', 'rfind') and not whole and V.mentions_field(x, V.MI, V.meta_announce(F)):
             rec.site(U, sb, 'query test applied to a part of the announce URL: %s' % show(x)[:100])
             rec.violation('query-test-on-substring', U, sb, 'the "?" test looks only at a part of the announce URL (%s): a query containing that delimiter is missed' % show(x[2][0])[:80])
         if x[0] == 'call' and x[4].get('name') in ('contains', 'find', 'rfind') and whole:
